@@ -175,7 +175,7 @@ Proof. apply Forall_impl. intros c H. apply isdig_facts in H. apply H. Qed.
 Lemma num_shape_nonspace g : num_shape g -> Forall nonspace g.
 Proof.
   intros (sg & b & -> & S & (d1 & fr & ex & -> & _ & F1 & FR & EX)).
-  repeat apply Forall_app; repeat split.
+  apply Forall_app; split; [|apply Forall_app; split; [|apply Forall_app; split]].
   - destruct S as [->|[->| ->]]; repeat constructor.
   - apply digits_nonspace. exact F1.
   - destruct FR as [->|(d2 & -> & F2)]; [constructor|]. constructor; [reflexivity | apply digits_nonspace; exact F2].
@@ -265,11 +265,11 @@ Qed.
 End Seg.
 
 Lemma digit_class y : class_match UC false [CCat CatDigit] y = true -> isdig y.
-Proof. unfold class_match. cbn [existsb item_match cat_match xorb]. rewrite orb_false_r. exact (fun H => H). Qed.
+Proof. unfold class_match. rewrite xorb_false_l. cbn [existsb item_match cat_match]. rewrite orb_false_r. exact (fun H => H). Qed.
 
 Lemma sign_class y : class_match UC false [CLit 43; CLit 45] y = true -> y = 43%N \/ y = 45%N.
 Proof.
-  unfold class_match. cbn [existsb item_match xorb]. rewrite orb_false_r. intros H.
+  unfold class_match. rewrite xorb_false_l. cbn [existsb item_match]. rewrite orb_false_r. intros H.
   apply orb_true_iff in H. destruct H as [H|H]; apply N.eqb_eq in H; auto.
 Qed.
 
